@@ -13,6 +13,9 @@ type Dials[T any] struct {
 	params      Params[T]
 	cbch        chan<- userCallbackEvent
 	monCtl      chan<- verifyEnable[T]
+	// monDone is closed when the monitor goroutine exits. (nil if there
+	// are no watching sources)
+	monDone chan struct{}
 }
 
 // View returns the configuration struct populated.
